@@ -19,7 +19,8 @@ DepsOf(t) == IF t \in DOMAIN H.deps THEN ToSet(H.deps[t]) ELSE {}
 Ev == Traces[ti].ev[l]
 Is(k) == ti <= Len(Traces) /\ l <= Len(Traces[ti].ev) /\ Ev.k = k
 Adv == l' = l + 1 /\ ti' = ti
-Done(t) == st[t] \in {"done-hit", "done-ok"}
+\* (a dependency that is being re-run for a dependant after a cache fault was done before and stays done for the ordering rule)
+Done(t) == st[t] \in {"done-hit", "done-ok", "recmd", "recmdok"}
 
 Reset == /\ st' = [t \in Targets |-> "idle"] /\ found' = [t \in Targets |-> FALSE] /\ tainted' = [t \in Targets |-> FALSE]
          /\ pass' = [t \in Targets |-> TRUE] /\ active' = {} /\ starts' = [t \in Targets |-> 0] /\ rerun' = {} /\ ldeps' = {}
